@@ -30,9 +30,12 @@
 #include <time.h>
 
 /* ------------------------------------------------------------------ allocator */
+extern void __real_free(void*);
+extern void* __real_malloc(size_t);
+extern void* __real_calloc(size_t, size_t);
 #define MAXBLK 65536
 #define MAXFAULT 8
-typedef struct { void* p; size_t size; int idx; int live; } blk_t;
+typedef struct { void* p; size_t size; int idx; int live; int plain; } blk_t;
 static blk_t g_blk[MAXBLK];
 static int g_nblk, g_nalloc, g_nfailed, g_dfree, g_foreign, g_pfree;
 static int g_fault[MAXFAULT], g_nfault;
@@ -42,7 +45,7 @@ static int g_armed;
 
 static void ev(const char* fmt, long a, long b) {
     char tmp[64]; int n = snprintf(tmp, sizeof tmp, fmt, a, b);
-    if (g_evlen + (size_t)n + 2 > g_evcap) { g_evcap = g_evcap ? g_evcap * 2 : 1 << 16; g_ev = (char*)realloc(g_ev, g_evcap); }
+    if (g_evlen + (size_t)n + 2 > g_evcap) { g_evcap = g_evcap ? g_evcap * 2 : 1 << 16; { char* ne = (char*)__real_malloc(g_evcap); if (g_ev) { memcpy(ne, g_ev, g_evlen + 1); __real_free(g_ev); } g_ev = ne; } }
     memcpy(g_ev + g_evlen, tmp, (size_t)n); g_evlen += (size_t)n; g_ev[g_evlen++] = ' '; g_ev[g_evlen] = 0;
 }
 static void mark(const char* name) {
@@ -51,31 +54,39 @@ static void mark(const char* name) {
     pthread_mutex_unlock(&g_mu);
 }
 
-extern void __real_free(void*);
 
-static void* zv_alloc(void* opaque, size_t size) {
+/* one allocation request of the library: plain = it came through libc malloc/calloc (default allocator) */
+static void* lib_alloc(size_t size, int plain, int zero) {
     void* p = NULL; int i, fail = 0;
-    (void)opaque;
     pthread_mutex_lock(&g_mu);
     g_nalloc++;
     for (i = 0; i < g_nfault; i++) if (g_fault[i] == g_nalloc) fail = 1;
-    if (fail) { g_nfailed++; ev("N%ld:%ld", g_nalloc, (long)size); pthread_mutex_unlock(&g_mu); return NULL; }
-    p = malloc(size ? size : 1);
+    if (fail) { g_nfailed++; ev(plain ? "n%ld:%ld" : "N%ld:%ld", g_nalloc, (long)size); pthread_mutex_unlock(&g_mu); return NULL; }
+    p = __real_malloc(size ? size : 1);
     if (!p) { fprintf(stderr, "c13_fault: real malloc failed\n"); _exit(97); }
+    if (zero) memset(p, 0, size);
 #if !defined(__SANITIZE_ADDRESS__)
-    memset(p, 0xA5, size);
+    else memset(p, 0xA5, size);
 #endif
-    if (g_nblk < MAXBLK) { g_blk[g_nblk].p = p; g_blk[g_nblk].size = size; g_blk[g_nblk].idx = g_nalloc; g_blk[g_nblk].live = 1; g_nblk++; }
+    if (g_nblk < MAXBLK) { g_blk[g_nblk].p = p; g_blk[g_nblk].size = size; g_blk[g_nblk].idx = g_nalloc; g_blk[g_nblk].live = 1; g_blk[g_nblk].plain = plain; g_nblk++; }
     else { fprintf(stderr, "c13_fault: block table full\n"); _exit(98); }
-    ev("A%ld:%ld", g_nalloc, (long)size);
+    ev(plain ? "a%ld:%ld" : "A%ld:%ld", g_nalloc, (long)size);
     pthread_mutex_unlock(&g_mu);
     return p;
 }
+static void* zv_alloc(void* opaque, size_t size) { (void)opaque; return lib_alloc(size, 0, 0); }
 
-/* returns: 1 freed a live block, 2 double free, 0 unknown pointer */
-static int release_block(void* p, const char* okfmt, const char* dfmt) {
+/* libc malloc/calloc of the whole program land here (-Wl,--wrap): while a case is armed they are allocation
+ * requests of the library through its default allocator (ZSTD_defaultCMem users, a zeroed ZSTD_customMem copy,
+ * legacy decoders) and take part in the fault numbering; the harness itself uses __real_malloc */
+void* __wrap_malloc(size_t size) { if (g_armed) return lib_alloc(size, 1, 0); return __real_malloc(size); }
+void* __wrap_calloc(size_t n, size_t size) { if (g_armed) return lib_alloc(n * size, 1, 1); return __real_calloc(n, size); }
+
+/* returns: 1 freed a live block, 2 double free, 0 unknown pointer; *plain = how the block was obtained */
+static int release_block(void* p, const char* okfmt, const char* dfmt, int* plain) {
     int i, res = 0;
     for (i = g_nblk - 1; i >= 0; i--) if (g_blk[i].p == p) break;
+    if (i >= 0) *plain = g_blk[i].plain;
     if (i >= 0 && g_blk[i].live) {
         g_blk[i].live = 0; ev(okfmt, g_blk[i].idx, 0); res = 1;
 #if defined(__SANITIZE_ADDRESS__)
@@ -91,20 +102,27 @@ static void zv_free(void* opaque, void* p) {
     (void)opaque;
     if (p == NULL) return;
     pthread_mutex_lock(&g_mu);
-    { int const r = release_block(p, "F%ld", "D%ld");
-      if (r == 2) g_dfree++;
-      if (r == 0) { g_foreign++; ev("X%ld", 0, 0); } }
+    { int plain = 0, mine = 0, i;
+      for (i = g_nblk - 1; i >= 0; i--) if (g_blk[i].p == p) { mine = 1; plain = g_blk[i].plain; break; }
+      if (!mine) { g_foreign++; ev("X%ld", 0, 0); }
+      else if (plain) { g_foreign++; release_block(p, "Y%ld", "Z%ld", &plain); }   /* Y: malloc'd block handed to the custom free */
+      else { int const r = release_block(p, "F%ld", "D%ld", &plain); if (r == 2) g_dfree++; } }
     pthread_mutex_unlock(&g_mu);
 }
 
 /* plain free() of the whole program (libzstd included) lands here */
 void __wrap_free(void* p) {
     if (p && g_armed) {
-        int i, mine = 0;
+        int i, mine = 0, plain = 0;
         pthread_mutex_lock(&g_mu);
-        for (i = g_nblk - 1; i >= 0; i--) if (g_blk[i].p == p) { mine = 1; break; }
+        for (i = g_nblk - 1; i >= 0; i--) if (g_blk[i].p == p) { mine = 1; plain = g_blk[i].plain; break; }
+        if (mine && plain) {   /* default-allocator block released through libc free: the matching pair */
+            int const r = release_block(p, "f%ld", "d%ld", &plain); if (r == 2) g_dfree++;
+            pthread_mutex_unlock(&g_mu);
+            return;
+        }
         if (mine) {
-            int const r = release_block(p, "P%ld", "Q%ld");   /* P: custom block given to libc free; Q: again */
+            int const r = release_block(p, "P%ld", "Q%ld", &plain);   /* P: custom block given to libc free; Q: again */
             g_pfree++; (void)r;
             pthread_mutex_unlock(&g_mu);
             return;
@@ -212,11 +230,12 @@ static void judge(const char* name, int failed, size_t code, int nf0, int attemp
 static int check_rt(const char* name, const void* cbuf, size_t csize, const void* src, size_t n, const void* dict, size_t dictSize) {
     static char* out; static size_t cap;
     size_t r; int saved = g_armed;
-    if (cap < n + 1) { cap = n + 1; out = (char*)realloc(out, cap); }
-    g_armed = saved;
+    if (cap < n + 1) { cap = n + 1; if (out) __real_free(out); out = (char*)__real_malloc(cap); }
+    g_armed = 0;   /* the verification decoder is not part of the case */
     {   ZSTD_DCtx* d = ZSTD_createDCtx();
         r = dict ? ZSTD_decompress_usingDict(d, out, cap, cbuf, csize, dict, dictSize) : ZSTD_decompressDCtx(d, out, cap, cbuf, csize);
         ZSTD_freeDCtx(d); }
+    g_armed = saved;
     if (ZSTD_isError(r) || r != n || memcmp(out, src, n)) { violation("round-trip-mismatch", name); return 1; }
     return 0;
 }
@@ -262,7 +281,7 @@ done:
 
 static int op_dstream(const char* name, ZSTD_DCtx* d, const void* frame, size_t fn, const void* expect, size_t en, size_t chunk, size_t ochunk) {
     int t; static char* out; static size_t cap;
-    if (cap < en + 64) { cap = en + 64; out = (char*)realloc(out, cap); }
+    if (cap < en + 64) { cap = en + 64; if (out) __real_free(out); out = (char*)__real_malloc(cap); }
     for (t = 0; t < MAXTRY; t++) {
         int nf0 = g_nfailed; size_t r = 1; size_t ip = 0, op = 0;
         while (ip < fn) {
